@@ -197,6 +197,38 @@ pub enum AckMode {
     Rand(u32),
     /// cookie+1 of ANOTHER flow of the case (index)
     OtherFlow(u8),
+    /// cookie + 1 + d: a near miss (d != 0; small and medium distances either side, e.g. what a
+    /// client would acknowledge after a server banner of d bytes)
+    Near(i32),
+}
+
+impl AckMode {
+    /// the acknowledgement number; `other` = cookie of the flow named by OtherFlow
+    pub fn value(&self, cookie: u32, other: u32) -> u32 {
+        match self {
+            AckMode::Good => cookie.wrapping_add(1),
+            AckMode::Cookie => cookie,
+            AckMode::Plus2 => cookie.wrapping_add(2),
+            AckMode::Zero => 0,
+            AckMode::Max => 0xffff_ffff,
+            AckMode::Rand(r) => *r,
+            AckMode::OtherFlow(_) => other.wrapping_add(1),
+            AckMode::Near(d) => cookie.wrapping_add(1).wrapping_add(if *d == 0 { 1 } else { *d as u32 }),
+        }
+    }
+    pub fn is_good(&self) -> bool {
+        matches!(self, AckMode::Good)
+    }
+}
+
+/// ICMP error types: (IPv4, IPv6)
+pub fn icmp_err_type() -> impl Strategy<Value = (u8, u8)> {
+    (prop::sample::select(vec![3u8, 3, 3, 11, 12, 4, 5]), prop::sample::select(vec![1u8, 1, 2, 3, 4]))
+}
+
+/// near-miss distances: 1..16, 17..4096, 4097..70000, either sign
+pub fn near_delta() -> impl Strategy<Value = i32> {
+    (prop_oneof![2 => 1i32..=16, 3 => 17i32..=4096, 1 => 4097i32..=70000], any::<bool>()).prop_map(|(d, neg)| if neg { -d } else { d })
 }
 
 #[derive(Clone, Debug, Serialize, Deserialize, PartialEq, Hash)]
@@ -219,6 +251,10 @@ pub enum Step {
     /// an application payload delivered over a handshaken flow in several segments (cut positions
     /// monotone-mapped; biased towards CR / LF / SP / ':' boundaries by `snap`)
     SegSplit { flow: u8, pay: Pay, cuts: Vec<u16>, snap: bool },
+    /// ICMP / ICMPv6 error message from the client quoting the header of a packet the responder
+    /// would have sent to it: a TCP segment of flow `flow` (server port -> client port, sequence =
+    /// the flow's cookie) or a UDP datagram (`sport` = the server's port, `dport` = the client's)
+    IcmpErr { typ4: u8, typ6: u8, code: u8, tcp: bool, flow: u8, sport: u16, dport: u16, l4_len: u8 },
     /// frame-level mutation of another step's frame
     Mut { inner: Box<Step>, muts: Vec<BMut> },
 }
@@ -237,6 +273,7 @@ impl Step {
             Step::Syn { .. } => "tcp-syn".into(),
             Step::Seg { pay, .. } => format!("tcp-seg/{}", pay.kind()),
             Step::SegSplit { pay, .. } => format!("tcp-split/{}", pay.kind()),
+            Step::IcmpErr { .. } => "icmp-error".into(),
             Step::Mut { inner, .. } => format!("framemut({})", inner.kind()),
         }
     }
@@ -270,9 +307,11 @@ pub fn step_leaf() -> BoxedStrategy<Step> {
         3 => (prop_oneof![4 => Just(0u8), 1 => any::<u8>()], prop_oneof![2 => (any::<[u8; 4]>(), any::<[u8; 16]>(), ndp_options()).prop_map(|(r, t, o)| { let mut v = r.to_vec(); v.extend_from_slice(&t); v.extend_from_slice(&o); v }), 1 => vec(any::<u8>(), 0..24)], any::<bool>())
             .prop_map(|(code, body, to_self_target)| Step::Ns { code, body: Hex(body), to_self_target }),
         6 => (port(), port(), pay(), prop::option::weighted(0.15, any::<u16>())).prop_map(|(sport, dport, pay, len_lie)| Step::Udp { sport, dport, pay, len_lie }),
+        1 => (icmp_err_type(), prop_oneof![3 => 0u8..6, 1 => any::<u8>()], any::<bool>(), 0u8..NFLOWS as u8, port(), port(), prop_oneof![3 => Just(8u8), 1 => 8u8..40])
+            .prop_map(|((typ4, typ6), code, tcp, flow, sport, dport, l4_len)| Step::IcmpErr { typ4, typ6, code, tcp, flow, sport, dport, l4_len }),
         2 => (0u8..NFLOWS as u8, prop_oneof![3 => Just(F_SYN), 1 => (0u16..512).prop_map(|f| f | F_SYN)], any::<u32>(), prop_oneof![3 => Just(vec![]), 1 => vec(any::<u8>(), 0..20)]).prop_map(|(flow, flags, seq, p)| Step::Syn { flow, flags, seq, payload: Hex(p) }),
         3 => (0u8..NFLOWS as u8, pay(), vec(any::<u16>(), 1..4), any::<bool>()).prop_map(|(flow, pay, cuts, snap)| Step::SegSplit { flow, pay, cuts, snap }),
-        8 => (0u8..NFLOWS as u8, prop_oneof![6 => Just(F_PSH | F_ACK), 1 => (0u16..512).prop_map(|f| f | F_PSH | F_ACK), 1 => 0u16..512, 2 => prop::sample::select(vec![F_RST | F_ACK, F_FIN | F_ACK, F_ACK, F_RST, F_SYN | F_ACK, F_FIN, 0u16, F_FIN | F_PSH | F_ACK, F_URG | F_ACK, F_SYN | F_FIN, F_RST | F_FIN | F_ACK, F_SYN | F_RST, F_ECE | F_CWR | F_SYN, F_NS | F_ACK])], prop_oneof![8 => Just(AckMode::Good), 1 => Just(AckMode::Cookie), 1 => Just(AckMode::Zero), 1 => any::<u32>().prop_map(AckMode::Rand)], prop::option::weighted(0.2, any::<u32>()), pay(), prop::option::weighted(0.1, 0u8..16), prop_oneof![5 => Just(0u8), 1 => 1u8..10])
+        8 => (0u8..NFLOWS as u8, prop_oneof![6 => Just(F_PSH | F_ACK), 1 => (0u16..512).prop_map(|f| f | F_PSH | F_ACK), 1 => 0u16..512, 2 => prop::sample::select(vec![F_RST | F_ACK, F_FIN | F_ACK, F_ACK, F_RST, F_SYN | F_ACK, F_FIN, 0u16, F_FIN | F_PSH | F_ACK, F_URG | F_ACK, F_SYN | F_FIN, F_RST | F_FIN | F_ACK, F_SYN | F_RST, F_ECE | F_CWR | F_SYN, F_NS | F_ACK])], prop_oneof![8 => Just(AckMode::Good), 1 => Just(AckMode::Cookie), 1 => Just(AckMode::Zero), 1 => any::<u32>().prop_map(AckMode::Rand), 1 => near_delta().prop_map(AckMode::Near)], prop::option::weighted(0.2, any::<u32>()), pay(), prop::option::weighted(0.1, 0u8..16), prop_oneof![5 => Just(0u8), 1 => 1u8..10])
             .prop_map(|(flow, flags, ack, seq, pay, doff, opt_words)| Step::Seg { flow, flags, ack, seq, pay, doff, opt_words }),
     ]
     .boxed()
@@ -395,15 +434,11 @@ impl<'a> World<'a> {
             Step::Seg { flow, flags, ack, seq, pay, doff, opt_words } => {
                 let fi = *flow as usize % NFLOWS;
                 let cookie = self.cookie(fi).unwrap_or(0);
-                let ackno = match ack {
-                    AckMode::Good => cookie.wrapping_add(1),
-                    AckMode::Cookie => cookie,
-                    AckMode::Plus2 => cookie.wrapping_add(2),
-                    AckMode::Zero => 0,
-                    AckMode::Max => 0xffff_ffff,
-                    AckMode::Rand(r) => *r,
-                    AckMode::OtherFlow(g) => self.cookie(*g as usize % NFLOWS).unwrap_or(0).wrapping_add(1),
+                let other = match ack {
+                    AckMode::OtherFlow(g) => self.cookie(*g as usize % NFLOWS).unwrap_or(0),
+                    _ => 0,
                 };
+                let ackno = ack.value(cookie, other);
                 let p = pay.bytes(true);
                 let sq = seq.unwrap_or(self.next_seq[fi]);
                 if seq.is_none() {
@@ -414,6 +449,22 @@ impl<'a> World<'a> {
                 h.options = vec![1u8; *opt_words as usize * 4];
                 h.doff = *doff;
                 tcp_frame(&net, &h, &p)
+            }
+            Step::IcmpErr { typ4, typ6, code, tcp, flow, sport, dport, l4_len } => {
+                let n = (*l4_len as usize).max(8);
+                let typ = if net.is_v4() { typ4 } else { typ6 };
+                if *tcp {
+                    let fi = *flow as usize % NFLOWS;
+                    let cookie = self.cookie(fi).unwrap_or(0);
+                    let f = &self.flows[fi];
+                    let mut l4 = tcp_seg(&net.sip, &net.cip, &TcpH::new(f.dport, f.sport, cookie, 1000, F_SYN | F_ACK), &[]);
+                    l4.resize(n.max(8), 0);
+                    icmp_error_frame(&net, *typ, *code, P_TCP, &l4)
+                } else {
+                    let mut l4 = udp_dgram(&net.sip, &net.cip, *sport, *dport, &[0u8; 24], None);
+                    l4.truncate(n.min(l4.len()));
+                    icmp_error_frame(&net, *typ, *code, P_UDP, &l4)
+                }
             }
             Step::SegSplit { .. } => self.realize_multi(s).pop().unwrap_or_default(),
             Step::Mut { inner, muts } => {
